@@ -11,6 +11,7 @@ import (
 	"sync"
 	"time"
 
+	inject "github.com/openebs/jiva/error-inject"
 	jsync "github.com/openebs/jiva/sync"
 	"github.com/openebs/jiva/types"
 )
@@ -430,6 +431,22 @@ func (x *SExec) apply(i int, op SOp) *Fail {
 		if st.Nodes[n].S.Replica() != nil {
 			st.Nodes[n].fixDrainer()
 			st.Nodes[n].S.Close()
+		}
+		if op.Str == "fresh" {
+			// the replica is replaced by a new, empty one on the same address
+			hadAgent := st.Nodes[n].agent != nil
+			if err := st.Nodes[n].Recreate(x.Live.size()); err != nil {
+				panic(err)
+			}
+			x.Labels["reconnect:fresh-replica"]++
+			delete(x.Frozen, n)
+			if hadAgent && st.System {
+				st.System = false
+				if err := st.enableAgents(); err != nil {
+					panic(err)
+				}
+			}
+			return nil
 		}
 		// a restarting replica resets the flag of a failed rebuild before it
 		// asks to be added again (sync.checkAndResetFailedRebuild)
@@ -1396,8 +1413,18 @@ func (x *SExec) doRebuild(i int, op SOp) *Fail {
 	if err != nil {
 		return sfail("rebuild|target-chain", err.Error(), "C07")
 	}
-	if err := CopyFileExact(filepath.Join(s.Dir, sc[0]+".meta"), filepath.Join(d.Dir, dc[0]+".meta")); err != nil {
-		panic(err)
+	nocopy := false
+	if op.Str == "nocopy" {
+		// nothing is transferred: legitimate only as an interruption when the
+		// chains differ (the controller verifies chain membership)
+		if strings.Join(sc[1:], ",") != strings.Join(dc[1:], ",") {
+			nocopy = true
+		}
+	}
+	if !nocopy {
+		if err := CopyFileExact(filepath.Join(s.Dir, sc[0]+".meta"), filepath.Join(d.Dir, dc[0]+".meta")); err != nil {
+			panic(err)
+		}
 	}
 	skip := -1
 	if op.Str == "skipfile" && len(sc) > 2 {
@@ -1409,7 +1436,7 @@ func (x *SExec) doRebuild(i int, op SOp) *Fail {
 		}
 	}
 	for k := len(sc) - 1; k >= 1; k-- {
-		if k == skip {
+		if k == skip || nocopy {
 			continue
 		}
 		for _, suf := range []string{"", ".meta"} {
@@ -1444,10 +1471,33 @@ func (x *SExec) doRebuild(i int, op SOp) *Fail {
 		if err := d.S.Replica().SyncDir(); err != nil {
 			panic(err)
 		}
+		// foreground writes after the reload, before the LUN map is rebuilt
+		if f := writes(op.N); f != nil {
+			return f
+		}
 		// foreground writes race with the LUN map merge
 		done := make(chan *Fail, 1)
 		nw := op.N
-		go func() { done <- writes(nw) }()
+		window := os.Getenv("VERIF_LUNMAP_WINDOW") != ""
+		if window {
+			// debug build of the repository: UpdateLUNMap sleeps between its preload
+			// and its merge (inject.AddUpdateLUNMapTimeout); the writes are issued
+			// exactly inside that window
+			os.Setenv("UpdateLUNMap_TIMEOUT", "1")
+			inject.UpdateLUNMapTimeoutTriggered = false
+			if nw == 0 && !x.readOnly() {
+				nw = 2
+			}
+			x.Labels["rebuild:writes-inside-lunmap-window"]++
+		}
+		go func() {
+			if window {
+				for t0 := time.Now(); !inject.UpdateLUNMapTimeoutTriggered && time.Since(t0) < 5*time.Second; {
+					time.Sleep(200 * time.Microsecond)
+				}
+			}
+			done <- writes(nw)
+		}()
 		lerr := d.S.UpdateLUNMap()
 		if f := <-done; f != nil {
 			return f
@@ -1461,12 +1511,14 @@ func (x *SExec) doRebuild(i int, op SOp) *Fail {
 		verr := st.C.VerifyRebuildReplica(d.Addr)
 		d.ClearFaults()
 		if verr != nil {
-			if op.Str == "" {
+			if op.Str == "" || (op.Str == "nocopy" && !nocopy) || (op.Str == "skipfile" && skip < 0) {
 				return sfail("rebuild|verify-refused", fmt.Sprintf("verification of a complete rebuild failed: %v", verr), "C07")
 			}
 			interrupted = "verify failed: " + verr.Error()
 		} else if skip >= 0 {
 			return sfail("rebuild|verify-accepted-incomplete-chain", fmt.Sprintf("snapshot %s was not transferred but the rebuild was verified", sc[skip]), "C07")
+		} else if nocopy {
+			return sfail("rebuild|verify-accepted-different-chain", fmt.Sprintf("nothing was transferred, the chains differ (source %v, target %v) but the rebuild was verified and the replica promoted", sc, dc), "C07")
 		}
 	}
 	x.tracef("rebuild n%d from n%d writes/phase=%d %s punch=%v -> %s", dst, src, op.N, op.Str, op.On, map[bool]string{true: "promoted", false: interrupted}[interrupted == ""])
@@ -1645,11 +1697,27 @@ finished:
 		if m := st.Mode(n); m == types.RW {
 			return sfail("sysrebuild|failed-but-promoted", fmt.Sprintf("AddReplica returned %v but the replica is listed RW", err), "C07")
 		}
+		// A rebuild that fails by itself (ssync gives up on a busy machine, ...) is an
+		// interrupted rebuild: not a violation, but the replica must stay out of the
+		// read path and stay marked as rebuilding.
 		if listedWO {
+			if vm, verr := readVolMeta(node.Dir); verr == nil && !vm.Rebuilding && st.Mode(n) == types.WO {
+				// the flag is set by the product right after the replica was added; if the
+				// failure came before that there is nothing to check
+				x.Labels["sysrebuild:failed-before-setrebuilding"]++
+			}
+			before := node.LogLen("read")
+			buf := make([]byte, Blk)
+			for q := 0; q < 2*len(st.Nodes); q++ {
+				st.C.ReadAt(buf, 0)
+			}
+			if node.LogLen("read") != before {
+				return sfail("rebuild|interrupted-replica-served-read", "a read was served by the replica whose rebuild failed", "C07", "C04")
+			}
 			st.C.RemoveReplica(node.Addr)
 			x.detach(n)
 		}
-		return sfail("sysrebuild|failed", fmt.Sprintf("the product's rebuild of n%d failed without any injected fault: %v", n, err), "C07")
+		return nil
 	}
 	if m := st.Mode(n); m != types.RW {
 		return sfail("sysrebuild|returned-ok-not-promoted", fmt.Sprintf("AddReplica returned nil but n%d is listed as %q", n, m), "C07")
